@@ -36,3 +36,11 @@ package grpcv3
 //@ func canonicalizeHeaders
 //@   props C13
 //@   assert at call CanonicalHeaderKey#1: true
+
+// the body is what Envoy sent - as bytes (raw_body) or, without pack_as_bytes, as text (body) -
+// decoded according to the content type, once
+//@ func (*RequestContext).Body
+//@   props C13
+//@   ensures old(r.savedBody) != nil ==> ret0 == old(r.savedBody)
+//@   assert at call Decode#1: len(r.reqRawBody) != 0 ==> callarg1 == r.reqRawBody
+//@   assert at call Decode#1: len(r.reqRawBody) == 0 ==> len(callarg1) == len(r.reqBody)
